@@ -94,6 +94,7 @@ var nondetCalls = map[string]string{
 var sourceExceptions = map[string]string{
 	"(*coreV2/minter.Blockchain).BeginBlock|time.Now": "argument of StatisticData().PushStartBlock only (observability); never stored in state",
 	"(*coreV2/minter.Blockchain).EndBlock$1|time.Now": "deferred PushEndBlock statistics only",
+	"(*coreV2/minter.Blockchain).EndBlock|time.Now":   "deferred PushEndBlock statistics only (when the deferred closure is a method)",
 	"(*coreV2/minter.Blockchain).Commit|time.After":   "shutdown path after `stopped`: waits for the snapshot goroutine and exits the process; no state is touched",
 	"(*coreV2/minter.Blockchain).Commit|go":           "snapshot goroutine spawned after the state commit; reads the committed version only, AppDB writes wait on the WaitGroup (C29.wg)",
 	"(*coreV2/minter.Blockchain).Commit|select":       "shutdown path after `stopped` only",
